@@ -22,6 +22,7 @@ type VClusterInfo struct {
 	JobCount    int
 	ReplicaN    int
 	Jobs        []string // "id:state" sorted
+	ID          string   // cluster id
 }
 
 // VCluster returns the server's current cluster view.
@@ -29,7 +30,7 @@ func VCluster(s *Server) VClusterInfo {
 	c := s.cluster
 	simrt.RLock(&c.mu, "harness")
 	defer simrt.RUnlock(&c.mu)
-	info := VClusterInfo{State: c.state, Coordinator: c.Coordinator, JobRunning: c.currentJob != nil, JobCount: len(c.jobs), ReplicaN: c.ReplicaN}
+	info := VClusterInfo{ID: c.id, State: c.state, Coordinator: c.Coordinator, JobRunning: c.currentJob != nil, JobCount: len(c.jobs), ReplicaN: c.ReplicaN}
 	for _, n := range c.nodes {
 		info.NodeIDs = append(info.NodeIDs, n.ID)
 	}
